@@ -66,6 +66,8 @@ SCHEMA = {
     ('Mininec', 'min_seglen'): 'real',
     # Excitation
     ('Excitation', 'idx'): 'optint',
+    ('Excitation', 'geo_tag'): 'optint',        # how the user named the pulse (object tag, row in the object), kept for the writers
+    ('Excitation', 'geo_idx'): 'optint',
     ('Excitation', 'voltage'): 'complex',
     ('Excitation', 'parent'): 'optobj:Mininec',
     ('Excitation', 'magnitude'): 'real',
